@@ -79,7 +79,10 @@ def spec_for(i, rng, max_runs=6, big=False):
         flip=((i // 9) % 5 == 2),                    # last stage prints its float columns as whole numbers (Temp = 0 ...)
         blowup=((i // 31) % 6 == 4),                 # nan / inf printed after the run blew up
         big=big and (i % 23 == 0),
+        middle=((i // 6) % 3 == 1),                  # the plan's relation is realised by the last run but one
     )
+    if s['middle'] and s['plan'] != 'junction' and s['nruns'] < 3:
+        s['nruns'] = 3 + (i // 29) % 3
     if s['plan'] in ('nested', 'out-of-order', 'starts-before', 'overlap', 'restart0', 'mixed-interval', 'disjoint') \
             and s['nruns'] < 2:
         s['nruns'] = 2 + (i // 29) % 3
@@ -124,12 +127,14 @@ def _float_column(rng, n, vclass):
     raise ValueError(vclass)
 
 
-def plan_steps(rng, plan, nruns, big=False):
+def plan_steps(rng, plan, nruns, big=False, middle=False):
     """Step numbers printed by each run (first step, multiples of the thermo interval, last step).
 
     All plans chain the runs junction-wise (run k+1 starts at the last step of run k, as LAMMPS does
-    when nothing resets the counter) except for the LAST run, which realises the plan's relation to
-    the range covered so far."""
+    when nothing resets the counter) except for ONE run, which realises the plan's relation to
+    the range covered so far: the last run, or with ``middle`` (>= 3 runs) the last but one - the
+    final run then carries on from where that run stopped, on the same thermo grid, to beyond
+    everything printed so far (0-1000, restart from a checkpoint 200-600, carried on 600-1400)."""
     N = int(rng.choice([1, 10, 50, 100, 250, 1000]))
     lens = [int(rng.integers(0, 9 if not big else 300)) for _ in range(nruns)]   # number of intervals; 0 = 'run 0'
     if plan != 'junction':
@@ -148,8 +153,14 @@ def plan_steps(rng, plan, nruns, big=False):
 
     out = []
     a = start
+    rel_k = nruns - 2 if (middle and nruns >= 3 and plan != 'junction') else nruns - 1
     for k in range(nruns):
-        last = (k == nruns - 1) and nruns > 1
+        last = (k == rel_k) and nruns > 1
+        if k > rel_k:                                # the run after the one that realised the relation
+            hi = max(max(r) for r in out)
+            a0 = out[-1][-1]
+            out.append(run_from(a0, max(hi - a0, 0) // N + max(1, min(lens[k], 8)), N))
+            continue
         if not last or plan == 'junction':
             if on_grid:
                 s = run_from(a, lens[k], N)
@@ -333,7 +344,7 @@ def synth(rng, spec, steps=None, version=None):
               '  %d by 1 by 1 MPI processor grid' % nprocs, 'Created %d atoms' % natoms]
 
     if steps is None:
-        steps = plan_steps(rng, spec['plan'], spec['nruns'], spec.get('big', False))
+        steps = plan_steps(rng, spec['plan'], spec['nruns'], spec.get('big', False), spec.get('middle', False))
     nruns = len(steps)
     keys, kinds = _columns(rng, spec['ncols'], spec['step_pos'])
     runs = []
